@@ -205,8 +205,27 @@ def bad_frames(rng):
     return out
 
 
+def parse_frame(name, sql, count, oids, trailing=b""):
+    return fr(b"P", name + b"\0" + sql + b"\0" + i16(count) + b"".join(i32(t) for t in oids) + trailing)
+
+
+def canary_parse_mutants():
+    """mutated copies of the CANARY's own Parse frames (same text T0): count fields -1, 0, 1, 32767, fewer / more OIDs than
+    the count, trailing bytes — each followed by Sync so that an accepted one reaches the shared statement cache"""
+    out = []
+    for cnt in (-1, 0, 1, 32767):
+        out.append(("PT_count_%d_no_oids" % cnt, parse_frame(b"h1", T0, cnt, ()) + Sm))
+        out.append(("PT_count_%d_two_oids" % cnt, parse_frame(b"h2", T0, cnt, TYPES2) + Sm))
+    out += [("PT_count_2_one_oid", parse_frame(b"h3", T0, 2, (23,)) + Sm), ("PT_count_2_three_oids", parse_frame(b"h4", T0, 2, (23, 25, 23)) + Sm),
+            ("PT_count_0_trailing", parse_frame(b"h5", T0, 0, (), b"\xde\xad\xbe") + Sm), ("PT_count_2_trailing", parse_frame(b"h6", T0, 2, TYPES2, b"\0") + Sm),
+            ("PT_unnamed_count_-1", parse_frame(b"", T0, -1, ()) + Bm() + Em() + Sm),
+            ("PT_valid_then_bind_exec", parse_frame(b"h7", T0, 0, ()) + Bm(name=b"h7") + Em() + Sm),
+            ("PT_count_-1_then_valid", parse_frame(b"h8", T0, -1, ()) + parse_frame(b"h9", T0, 0, ()) + Sm)]
+    return out
+
+
 def wrong_order():
-    return [("bind_without_parse", Bm() + Sm), ("execute_unknown_portal", Em(b"nope") + Sm), ("copydata_outside_copy", dm(b"1\tx\n")),
+    return canary_parse_mutants() + [("bind_without_parse", Bm() + Sm), ("execute_unknown_portal", Em(b"nope") + Sm), ("copydata_outside_copy", dm(b"1\tx\n")),
             ("copydata_outside_copy_big", dm(b"y" * 9000)), ("query_12k", Qm(b"SELECT '" + b"q" * 12000 + b"'")), ("copydone_outside_copy", cm), ("copyfail_outside_copy", fm()),
             ("copydata_then_sync", dm(b"1\tx\n") + Sm), ("sync_storm", Sm * 5), ("sync_flush_storm", (Sm + Hm) * 3),
             ("describe_then_sync", Dm(b"S", b"") + Sm), ("close_then_sync", Cm(b"S", b"") + Sm), ("close_named_then_sync", Cm(b"S", b"s1") + Sm),
@@ -260,6 +279,12 @@ def gen_cases(rng, quick):
                 continue
             for sn in ("idle", "txn"):
                 cases.append(dict(kind="post", variant=vn, state=sn, cat="body", label=lab, hostile=hb, probe=(ki % 2 == 0)))
+    for vn in ("cache", "cache_regex", "parser_cache", "all"):
+        for ki, (lab, hb) in enumerate(canary_parse_mutants()):
+            for sn in ("idle", "txn", "idle_named"):
+                if quick and (ki + len(vn) + len(sn)) % 2 == 1 and vn != "cache":
+                    continue
+                cases.append(dict(kind="post", variant=vn, state=sn, cat="cache_poison", label=lab, hostile=hb, probe=(ki % 2 == 0)))
     # admin client
     adm = [(l, b) for l, b in malformed_bodies() if l.startswith(("len4_", "Q_", "P_valid", "B_valid", "C_", "E_"))] + bad_frames(rng)
     adm += [("admin_show_help", Qm(b"SHOW HELP")), ("admin_unsupported", Qm(b"SELECT 1")), ("admin_show_bogus", Qm(b"SHOW BOGUS")), ("admin_set", Qm(b"SET x TO 1")),
@@ -324,16 +349,61 @@ def gen_cases(rng, quick):
 
 
 # ------------------------------------------------------------------------------------- scenarios
-def canary(wait_ms=5000):
+T0 = b"SELECT 'canary-ext' /*T*/"        # the fixed text of the canary's prepared statements
+TYPES2 = (23, 25)
+
+
+def canary_ext_rounds():
+    """the canary's EXTENDED round (statement caching on): T0 prepared with 0 and with 2 typed parameters, bound, described,
+    executed; then bound and executed again.  The shared statement cache (pool level and per server) is what it probes."""
+    return [Pm(b"c0", T0) + Bm(name=b"c0") + Dm(b"S", b"c0") + Em() + Sm,
+            Pm(b"c2", T0, TYPES2) + Bm(name=b"c2", params=[b"1", b"x"]) + Dm(b"S", b"c2") + Em() + Sm,
+            Bm(name=b"c0") + Em() + Bm(name=b"c2", params=[b"2", b"y"]) + Em() + Sm]
+
+
+def canary(wait_ms=5000, ext=False, ntasks=2):
     # the canary terminates and waits for the pooler's close: its server is back in the pool by then (no timing involved)
-    return [{"op": "connect", "c": "k", "params": {"user": "u", "database": "db"}, "password": "pw", "timeout_ms": 4000},
-            {"op": "send", "c": "k", "msgs": [{"t": "Q", "sql": "SELECT 'canary-1'"}]}, {"op": "recv", "c": "k", "until": "Z", "timeout_ms": 4000},
-            {"op": "send", "c": "k", "msgs": [{"t": "Q", "sql": "SELECT 'canary-2'"}]}, {"op": "recv", "c": "k", "until": "Z", "timeout_ms": 4000},
-            {"op": "send", "c": "k", "msgs": [{"t": "X"}]}, {"op": "recv", "c": "k", "until": "", "count": 0, "timeout_ms": 4000, "label": "bye"},
-            {"op": "wait_tasks", "n": 2, "timeout_ms": wait_ms}, {"op": "snapshot", "label": "end"}]
+    st = [{"op": "connect", "c": "k", "params": {"user": "u", "database": "db"}, "password": "pw", "timeout_ms": 4000},
+          {"op": "send", "c": "k", "msgs": [{"t": "Q", "sql": "SELECT 'canary-1'"}]}, {"op": "recv", "c": "k", "until": "Z", "timeout_ms": 4000},
+          {"op": "send", "c": "k", "msgs": [{"t": "Q", "sql": "SELECT 'canary-2'"}]}, {"op": "recv", "c": "k", "until": "Z", "timeout_ms": 4000}]
+    if ext:
+        for i, r in enumerate(canary_ext_rounds()):
+            st += [{"op": "send", "c": "k", "msgs": [{"raw": r.hex()}]}, {"op": "recv", "c": "k", "until": "Z", "timeout_ms": 4000, "label": "ext%d" % (i + 1)}]
+    return st + [{"op": "send", "c": "k", "msgs": [{"t": "X"}]}, {"op": "recv", "c": "k", "until": "", "count": 0, "timeout_ms": 4000, "label": "bye"},
+                 {"op": "wait_tasks", "n": ntasks, "timeout_ms": wait_ms}, {"op": "snapshot", "label": "end"}]
 
 
 CANARY = canary()
+
+
+def canon_frame(f):
+    t = f.get("t")
+    if t == "D":
+        return ["D", (f.get("cols") or [None, None, None])[2]]
+    if t == "C":
+        return ["C", f.get("tag")]
+    if t == "Z":
+        return ["Z", f.get("status")]
+    if t == "E":
+        return ["E", f.get("fields", {}).get("C"), f.get("fields", {}).get("M", "")[:80]]
+    return [t, f.get("len")]
+
+
+BASELINE = {}      # what the canary sees on a FRESH pool: {"ext": [[frames of round 1], ..], "tracked": {...}}
+
+
+def compute_baseline(wire):
+    """the canary alone on a fresh pool (statement caching on): the reference for 'answered exactly as on a fresh pool'"""
+    r = W.run_scenario(wire, {"backends": [{"name": "b0"}], "toml": make_toml(VARIANTS["cache"]), "hex": False, "steps": canary(3000, True, 1)}, timeout=60)
+    if "events" not in r:
+        return "baseline scenario failed: %s" % str(r)[:300]
+    ext = [[canon_frame(f) for f in e["frames"]] for e in r["events"] if e.get("who") == "k" and e.get("ev") == "recv" and str(e.get("label", "")).startswith("ext")]
+    first = [e for e in r["events"] if e.get("ev") == "msg" and e.get("detail", {}).get("sql") == "SELECT 'canary-1'"]
+    if len(ext) != 3 or not first or any(f[0] == "E" for rr in ext for f in rr):
+        return "baseline canary round is not clean: %s" % json.dumps(ext)[:400]
+    BASELINE["ext"] = ext
+    BASELINE["tracked"] = first[0].get("tracked")
+    return None
 
 
 def stream_bytes(c):
@@ -373,7 +443,10 @@ def scenario(c, wait_ms=6000):
             steps.append({"op": "connect", "c": A, "params": {"user": "admin", "database": "pgcat"}, "password": "adminpw", "timeout_ms": 4000})
             prefix, nz = b"", 0
         else:
-            steps.append({"op": "connect", "c": A, "params": {"user": "u", "database": "db"}, "password": "pw", "timeout_ms": 4000})
+            cs = {"op": "connect", "c": A, "params": dict({"user": "u", "database": "db"}, **c.get("startup_params", {})), "password": "pw", "timeout_ms": 4000}
+            if c.get("raw_startup"):
+                cs["raw_startup"] = c["raw_startup"]
+            steps.append(cs)
             prefix, nz = post_states(v)[c["state"]]
         if prefix:
             steps.append({"op": "send", "c": A, "msgs": [{"raw": prefix.hex()}]})
@@ -385,7 +458,7 @@ def scenario(c, wait_ms=6000):
         steps.append(s)
     steps += [{"op": "half_close", "c": A}, {"op": "recv", "c": A, "until": "", "count": 0, "timeout_ms": wait_ms, "label": "hostile"}, {"op": "close", "c": A},
               {"op": "wait_tasks", "n": 1, "timeout_ms": wait_ms}]
-    return {"backends": [{"name": "b0"}], "toml": make_toml(v, trust), "hex": False, "workers": 2, "steps": steps + canary(wait_ms)}
+    return {"backends": [{"name": "b0"}], "toml": make_toml(v, trust), "hex": False, "workers": 2, "steps": steps + canary(wait_ms, v["cache"])}
 
 
 # ----------------------------------------------------------------------------------- observation
@@ -469,8 +542,22 @@ def monitors(res, c):
         dirty = {k: st.get(k) for k in CLEAN if st.get(k) != CLEAN[k]}
         if dirty:
             bad.append("canary's first statement reached a backend session that was not clean: %s" % dirty)
+        if BASELINE.get("tracked") is not None and first[0].get("tracked") != BASELINE["tracked"]:
+            bad.append("canary's first statement ran with session parameters that are not its own: %s (fresh pool: %s)" % (first[0].get("tracked"), BASELINE["tracked"]))
     elif not bad:
         bad.append("canary's statement never reached the backend")
+    exts = [e for e in ev if e.get("who") == "k" and e.get("ev") == "recv" and str(e.get("label", "")).startswith("ext")]
+    if exts or VARIANTS[c["variant"]]["cache"]:
+        got = [[canon_frame(f) for f in e["frames"]] for e in exts]
+        want = BASELINE.get("ext")
+        if want is not None and got != want:
+            i = next((j for j in range(3) if j >= len(got) or got[j] != want[j]), 0)
+            bad.append("canary's extended round %d (Parse/Bind/Describe/Execute of its own statement) is not answered as on a fresh pool: got %s, fresh pool %s"
+                       % (i + 1, json.dumps(got[i] if i < len(got) else None)[:300], json.dumps(want[i])[:200]))
+        elif want is None and any(f[0] == "E" for rr in got for f in rr):
+            bad.append("canary's extended round got an error: %s" % json.dumps(got)[:300])
+    if "panic" in res.get("task_results", [])[1:]:
+        bad.append("a task other than the first one to end (the sender's) panicked: %s" % res.get("task_results"))
     snaps = [s for s in res.get("snapshots", []) if s.get("label") == "end"]
     if snaps:
         s = snaps[0]
@@ -859,6 +946,107 @@ def nesting_probes(run, wire):
     return len(cases)
 
 
+def pool_wait_cases():
+    """(Parse known to the server + Parse new + Sync) with the sender half-closing / closing / resetting at every point, also
+    while the batch WAITS for the pool: a third client holds the only server in BEGIN during the batch, then commits.
+    The statements are the canary's own (text T0, 0 and 2 typed parameters)."""
+    known = Pm(b"ha", T0)
+    new = Pm(b"hb", T0, TYPES2)
+    points = {"after_known": known, "after_new": known + new, "whole_batch": known + new + Sm,
+              "whole_batch_bind": known + new + Bm(name=b"hb", params=[b"1", b"x"]) + Em() + Sm}
+    out = []
+    for vn in ("cache", "all"):
+        for pt, bs in points.items():
+            for act in ("half_close", "close", "rst"):
+                for held in (True, False):
+                    out.append(dict(variant=vn, point=pt, action=act, held=held, bytes=bs, label="poolwait_%s_%s_%s_%s" % (vn, pt, act, "held" if held else "free")))
+    return out
+
+
+def pool_wait_scenario(c):
+    v = VARIANTS[c["variant"]]
+    A, H = "a", "h"
+    steps = [{"op": "connect", "c": A, "params": {"user": "u", "database": "db"}, "password": "pw", "timeout_ms": 4000},
+             # the server learns the sender's statement for T0 (0 parameters): "known to the server"
+             {"op": "send", "c": A, "msgs": [{"raw": (Pm(b"ha", T0) + Sm).hex()}]}, {"op": "recv", "c": A, "until": "Z", "timeout_ms": 4000}]
+    if c["held"]:
+        steps += [{"op": "connect", "c": H, "params": {"user": "u", "database": "db"}, "password": "pw", "timeout_ms": 4000},
+                  {"op": "send", "c": H, "msgs": [{"t": "Q", "sql": "BEGIN"}]}, {"op": "recv", "c": H, "until": "Z", "timeout_ms": 4000}]
+    steps += [{"op": "send", "c": A, "msgs": [{"raw": c["bytes"].hex()}]}, {"op": "sleep", "ms": 40}]
+    steps.append({"op": "half_close", "c": A} if c["action"] == "half_close" else {"op": "close", "c": A, "rst": c["action"] == "rst"})
+    steps.append({"op": "sleep", "ms": 40})
+    if c["held"]:
+        steps += [{"op": "send", "c": H, "msgs": [{"t": "Q", "sql": "COMMIT"}]}, {"op": "recv", "c": H, "until": "Z", "timeout_ms": 4000},
+                  {"op": "send", "c": H, "msgs": [{"t": "X"}]}, {"op": "recv", "c": H, "until": "", "count": 0, "timeout_ms": 4000, "label": "bye"}]
+    if c["action"] == "half_close":
+        steps += [{"op": "recv", "c": A, "until": "", "count": 0, "timeout_ms": 5000, "label": "hostile"}, {"op": "close", "c": A}]
+    n = 2 if c["held"] else 1
+    steps.append({"op": "wait_tasks", "n": n, "timeout_ms": 5000})
+    toml = make_toml(v).replace("connect_timeout = 700", "connect_timeout = 5000")
+    return {"backends": [{"name": "b0"}], "toml": toml, "hex": False, "workers": 2, "steps": steps + canary(5000, True, n + 1)}
+
+
+HOSTILE_VALUES = ["x'", "x\\", "x\\'", "x\\\\'", "E'x", "'", "\\", "x'; SET statement_timeout TO 1; --", "x\\'; SET statement_timeout TO 1; --",
+                  "x''; SET statement_timeout TO 1; --", "x\\\\'; SET statement_timeout TO 1; --", "E'x\\'; SET statement_timeout TO 1; --", "x\ny", "x$$y", "x\"y"]
+TRACKED_KEYS = ["application_name", "client_encoding", "DateStyle", "TimeZone", "standard_conforming_strings"]
+
+
+def startup_param_cases():
+    """hostile STARTUP parameters for every tracked key: quotes, backslashes, backslash-quote, E-prefix look-alikes, attempts
+    to smuggle a second statement into the SET the pooler sends to the SHARED server connection; NUL inside a value"""
+    out = []
+    for k in TRACKED_KEYS + ["datestyle", "TIMEZONE"]:
+        for i, val in enumerate(HOSTILE_VALUES):
+            out.append(dict(kind="post", variant="cache" if (i % 4 == 0) else "plain", state="idle", cat="startup_param", label="param_%s_%d" % (k, i),
+                            hostile=Qm(b"SELECT 'hostile-session'"), probe=False, id=-20, startup_params={k: val}))
+    for i, val in enumerate(HOSTILE_VALUES):      # with standard_conforming_strings switched off first: backslashes become escapes on the server
+        out.append(dict(kind="post", variant="plain", state="idle", cat="startup_param", label="param_scs_off_app_%d" % i,
+                        hostile=Qm(b"SELECT 'hostile-session'"), probe=False, id=-20, startup_params={"standard_conforming_strings": "off", "application_name": val}))
+    # a NUL cannot be inside a value: the bytes behind it are read as further names / values
+    raw = startup([(b"user", b"u"), (b"database", b"db"), (b"application_name", b"x\0'; SET statement_timeout TO 1; --")])
+    out.append(dict(kind="post", variant="plain", state="idle", cat="startup_param", label="param_nul_inside", hostile=Qm(b"SELECT 'hostile-session'"), probe=False, id=-20,
+                    raw_startup=raw.hex()))
+    return out
+
+
+def cross_client_probes(run, wire):
+    """monitor-only families (Decode.v treats these streams as ordinary well-framed messages; what they could hurt is SHARED
+    state: the pool's and the servers' statement caches, the server connection's session parameters)"""
+    out = {}
+    pw = pool_wait_cases()
+    res = W.run_scenarios(wire, [pool_wait_scenario(c) for c in pw], timeout=90)
+    fails = []
+    for c, r in zip(pw, res):
+        probs = monitors(r, dict(variant=c["variant"]))
+        if probs:
+            fails.append((c, probs))
+    for c, probs in fails[:4]:
+        run.violation("counterexample", "sender %s at %s of (Parse known + Parse new + Sync)%s, config %s: %s" % (c["action"], c["point"], " while the batch waits for the pool" if c["held"] else "", c["variant"], probs[0]),
+                      {"input": {"family": "pool_wait", "variant": c["variant"], "point": c["point"], "action": c["action"], "held": c["held"], "bytes_hex": c["bytes"].hex()}, "monitors": probs})
+    out["pool_wait"] = {"scenarios": len(pw), "failures": len(fails)}
+    sp = startup_param_cases()
+    res = W.run_scenarios(wire, [scenario(c) for c in sp], timeout=90)
+    fails, authed, set_seen = [], 0, 0
+    for c, r in zip(sp, res):
+        probs = monitors(r, c)
+        ev = r.get("events", [])
+        if any(e.get("who") == "a" and e.get("ev") == "startup_done" and e.get("auth_ok") for e in ev):
+            authed += 1
+        if any(e.get("ev") == "msg" and str(e.get("detail", {}).get("sql", "")).upper().startswith("SET ") for e in ev):
+            set_seen += 1
+        if probs:
+            fails.append((c, probs))
+    for c, probs in fails[:4]:
+        run.violation("counterexample", "startup parameters %s: %s" % (json.dumps(c.get("startup_params", c.get("raw_startup"))), probs[0]),
+                      {"input": case_replay(c), "monitors": probs})
+    out["startup_params"] = {"scenarios": len(sp), "sender_authenticated": authed, "pooler_sent_SET_to_server": set_seen, "failures": len(fails)}
+    out["note"] = ("monitor-only: the model classifies these streams as ordinary well-framed messages (Ok/continue); the checks are the canary's extended round "
+                   "answered exactly as on a fresh pool (no 26000 / 42P05, no panic of its task), a clean session and the canary's own tracked parameters at its first statement; "
+                   "that a connection is never handed on unclean is the clean_handoff hypothesis (C02), that the SET the pooler sends is one statement is C12's codec")
+    run.cov["cross_client_probes"] = out
+    return len(pw) + len(sp)
+
+
 def check(run):
     quick = run.tier == "quick"
     rng = run.rng
@@ -887,6 +1075,10 @@ def check(run):
     if rx is None:
         run.violation("tie-broken", "CUSTOM_SQL_REGEXES literal not found in query_router.rs (shape changed)", {"correspondence": "custom command oracle"}, found_input=False)
         return
+    berr = compute_baseline(wire)
+    if berr:
+        run.broken.append(berr)
+        return
     stats = {"evaluations": 0, "validated": 0, "monitor_fail": [], "tie_fail": [], "classes": {}, "distinct": set(), "trans": set(), "samples": [], "_seen": set()}
     cases = gen_cases(rng, quick)
     run.log("generated %d streams" % len(cases))
@@ -900,13 +1092,15 @@ def check(run):
         ok2, blog2, bins2 = vlib.cargo_build(["wire"], release=True)
         if ok2:
             rel = private_copy(bins2["wire"], "rel")
-            sub = [c for c in cases if c["cat"] != "random"]
+            # release: a Parse with a negative count is re-encoded with a wrong length; PostgreSQL answers the garbage behind it
+            # with FATAL and closes, the mock would wait for the announced bytes: not compared (named in the evidence)
+            sub = [c for c in cases if c["cat"] != "random" and "PT_count_-1" not in c["label"] and "PT_unnamed_count_-1" not in c["label"]]
             run_batch(run, rel, sub, False, rx, stats, "rel")
             run.log("release build: %d streams" % len(sub))
         else:
             run.broken.append("release harness build failed: " + blog2[-500:])
     n_nest = nesting_probes(run, wire)
-    stats["evaluations"] += n_nest
+    stats["evaluations"] += n_nest + cross_client_probes(run, wire)
     special_scenarios(run, wire, quick)
 
     # ---- decide
